@@ -19,6 +19,7 @@ import (
 	"bytes"
 	"context"
 	"encoding/json"
+	"encoding/xml"
 	"fmt"
 	"io"
 	"log"
@@ -51,6 +52,7 @@ type runCase struct {
 	FaultAt int    `json:"fault_at"`
 	Fault   string `json:"fault"`   // HTTP: eof | timeout | status | statuskey | trunc | invalid | inactive ; SSH: close | silence | wrongpass
 	User    string `json:"user"`    // "" = admin
+	KeyKind string `json:"key_kind"` // "" = base64-like key; else the odd character class the key contains (scan only)
 	Variant int    `json:"variant"` // layout of the keygen response / netspoc config with or without changes
 	Cred    string `json:"cred"`    // "" normal credentials file; "4fields" | "nomatch" | "badpattern": malformed
 }
@@ -595,7 +597,9 @@ func execRun(tmp string, c *runCase, no int, scale int) *runOutcome {
 			q := r.URL.Query()
 			switch {
 			case q.Get("type") == "keygen":
-				rep.A = pre + "<key>" + c.Key + "</key>" + post
+				var kb bytes.Buffer
+				xml.EscapeText(&kb, []byte(c.Key)) // the device sends well-formed XML whatever the key contains
+				rep.A = pre + "<key>" + kb.String() + "</key>" + post
 			case strings.Contains(q.Get("cmd"), "high-availability"):
 				rep.A = panHA
 			case q.Get("type") == "config" && q.Get("action") == "get":
@@ -715,6 +719,8 @@ func execRun(tmp string, c *runCase, no int, scale int) *runOutcome {
 	}
 	WriteFiles(codeDir, map[string]string{"router": netspoc, "router.info": info})
 	os.Setenv("HOME", work)
+	os.MkdirAll(filepath.Join(tmp, "TMPDIR"), 0755)
+	os.Setenv("TMPDIR", filepath.Join(tmp, "TMPDIR"))
 	prevDir, _ := os.Getwd()
 	os.Chdir(work)
 	defer os.Chdir(prevDir)
@@ -809,17 +815,37 @@ func execRun(tmp string, c *runCase, no int, scale int) *runOutcome {
 		b, _ = os.ReadFile(filepath.Join(side, "scenario.tl"))
 		out.SimTl = string(b)
 	}
-	filepath.Walk(work, func(p string, info os.FileInfo, err error) error {
-		if err == nil && info.Mode().IsRegular() {
-			rel, _ := filepath.Rel(work, p)
-			b, _ := os.ReadFile(p)
-			out.Files[rel] = string(b)
-		}
-		return nil
-	})
+	out.Files = collectFiles(tmp, no)
 	os.RemoveAll(work)
 	os.RemoveAll(side)
 	return out
+}
+
+// collectFiles: every regular file the run left below its private directory — the base directory
+// (= HOME = cwd; names relative to it) and TMPDIR (names `TMPDIR/…`: scp sources and whatever else the
+// code puts there) — except the simulator's own scenario and traces (`side<no>`).
+func collectFiles(tmp string, no int) map[string]string {
+	files := map[string]string{}
+	work := filepath.Join(tmp, fmt.Sprintf("run%d", no))
+	side := filepath.Join(tmp, fmt.Sprintf("side%d", no))
+	filepath.Walk(tmp, func(p string, info os.FileInfo, err error) error {
+		if err != nil {
+			return nil
+		}
+		if info.IsDir() && p == side {
+			return filepath.SkipDir
+		}
+		if info.Mode().IsRegular() {
+			rel, _ := filepath.Rel(tmp, p)
+			if r, err := filepath.Rel(work, p); err == nil && !strings.HasPrefix(r, "..") {
+				rel = r
+			}
+			b, _ := os.ReadFile(p)
+			files[rel] = string(b)
+		}
+		return nil
+	})
+	return files
 }
 
 func ioctl(fd uintptr, req uintptr, arg unsafe.Pointer) error {
@@ -870,6 +896,8 @@ func sinkOf(rel string) string {
 		return "stderr"
 	case rel == "<terminal>":
 		return "terminal"
+	case strings.HasPrefix(rel, "TMPDIR/"):
+		return "tmpfile"
 	case strings.HasPrefix(rel, "history/"):
 		return "history"
 	case strings.HasPrefix(rel, "status/"):
@@ -903,6 +931,7 @@ func (e *c17Env) scanRun(c *runCase, o *runOutcome) {
 		names = append(names, n)
 	}
 	sort.Strings(names)
+	echoFlavour := devSSH[c.Dev] && (c.Variant/2)%8 == 5
 	kinds := []string{"password", "apikey", "token", "cookie"}
 	for _, kind := range kinds {
 		secret, ok := secrets[kind]
@@ -910,75 +939,80 @@ func (e *c17Env) scanRun(c *runCase, o *runOutcome) {
 			continue
 		}
 		for _, rel := range names {
-			form, found := findSecret(hay[rel], secret)
-			if !found {
+			if _, found := findSecret(hay[rel], secret, c.user()); !found {
 				continue
 			}
 			sink := sinkOf(rel)
-			pred := "secret_in_sink"
-			if kind == "password" && devSSH[c.Dev] && !o.noEcho {
-				// the device echoed what was typed at its password prompt: outside the guarantee
-				// (hypothesis noEchoAtPasswordPrompt of ssh_echo_device_independent)
-				e.res.Count("scan:device-echoes-at-password-prompt(outside guarantee):" + sink)
-				continue
-			}
-			if kind == "apikey" && c.Dev == "PAN-OS" {
-				if strings.ContainsAny(c.Key, "&\n") {
-					e.res.Count("scan:key-outside-alphabet(&,newline)-visible")
+			// judge line by line: a second leak in a file that also holds a known line must not hide
+			type verdict struct{ pred, phase, line, form string }
+			seen := map[verdict]bool{}
+			var verdicts []verdict
+			lines := strings.Split(hay[rel], "\n")
+			judged := false
+			for _, line := range lines {
+				form, found := findSecret(line, secret, c.user())
+				if !found {
 					continue
 				}
-				if c.Fault == "statuskey" && !strings.HasPrefix(sink, "session") {
+				judged = true
+				v := verdict{pred: "secret_in_sink", phase: "n/a", line: "n/a", form: form}
+				switch {
+				case kind == "password" && devSSH[c.Dev] && (!o.noEcho || o.Env != "" && echoFlavour):
+					// the device echoed what was typed at its password prompt: outside the guarantee
+					// (hypothesis noEchoAtPasswordPrompt of ssh_echo_device_independent)
+					e.res.Count("scan:device-echoes-at-password-prompt(outside guarantee):" + sink)
+					continue
+				case kind == "apikey" && c.Dev == "PAN-OS" && c.Fault == "statuskey" && !strings.HasPrefix(sink, "session"):
 					// the rejected answer (status other than 200) is quoted in the WARNING; no key was obtained
 					e.res.Count("scan:rejected-keygen-answer-quoted-in-warning:" + sink)
 					continue
-				}
-				// F-C17: every line that shows the key is the ERROR>>> line of a request behind the HA
-				// check, embedding the request URL
-				all := true
-				phase, lineKind := "after_ha", "error_marker"
-				needle := secretForms(secret)[form]
-				for _, line := range strings.Split(hay[rel], "\n") {
-					if !strings.Contains(line, needle) {
-						continue
-					}
+				case kind == "apikey" && c.Dev == "PAN-OS" && !strings.HasSuffix(form, ":part"):
+					// F-C17: the ERROR>>> line of a request behind the HA check, embedding the request URL
+					needle := formValue(secret, form)
 					get := `Get "` + o.Addr + `/api/?key=`
 					prs := `parse "` + o.Addr + `/api/?key=`
 					i := strings.Index(line, get)
 					if i < 0 {
 						i = strings.Index(line, prs)
 					}
-					if i < 0 {
-						all = false
-						continue
-					}
-					if strings.Contains(line[i:], "/api/?key="+needle+"&type=op&cmd=<show><high-availability>") {
-						phase = "ha_check"
-					}
-					if !strings.Contains(line[:i], "ERROR>>> ") {
-						lineKind = "other"
+					if i >= 0 && strings.Count(line, needle) == 1 {
+						v.phase, v.line = "after_ha", "error_marker"
+						if strings.Contains(line[i:], "/api/?key="+needle+"&type=op&cmd=<show><high-availability>") {
+							v.phase = "ha_check"
+						}
+						if !strings.Contains(line[:i], "ERROR>>> ") {
+							v.line = "other"
+						}
+						if v.phase == "after_ha" && v.line == "error_marker" {
+							v.pred = "panos_transport_error_url" // the class of F-C17 (complement of leakPath = false)
+						} else {
+							// an error text with the request URL outside that class: its own predicate, so that
+							// the known finding cannot swallow it (and the cap per predicate does not drop it)
+							v.pred = "panos_error_url_outside_abort_after_ha"
+						}
 					}
 				}
-				switch {
-				case all && phase == "after_ha" && lineKind == "error_marker":
-					pred = "panos_transport_error_url" // the class of F-C17 (complement of leakPath = false)
-				case !all:
-					phase, lineKind = "n/a", "n/a"
-				case all:
-					// an error text with the request URL outside that class: its own predicate, so that the
-					// known finding cannot swallow it (and the cap per predicate does not drop it)
-					pred = "panos_error_url_outside_abort_after_ha"
+				if !seen[v] {
+					seen[v] = true
+					verdicts = append(verdicts, v)
 				}
-				e.res.Fail(map[string]any{"pred": pred, "sink": sink, "dev": c.Dev, "secret": kind, "form": form,
-					"phase": phase, "line": lineKind},
-					fmt.Sprintf("%s %s: %s found (%s) in %s [fault %s at %d]", c.Dev, c.Cmd, kind, form, rel, c.Fault, c.FaultAt),
-					map[string]any{"run": c})
-				e.res.Count("leak:" + pred + ":" + phase + ":" + sink)
-				continue
 			}
-			e.res.Fail(map[string]any{"pred": pred, "sink": sink, "dev": c.Dev, "secret": kind, "form": form},
-				fmt.Sprintf("%s %s: %s found (%s) in %s [fault %s at %d]", c.Dev, c.Cmd, kind, form, rel, c.Fault, c.FaultAt),
-				map[string]any{"run": c})
-			e.res.Count("leak:" + pred + ":" + sink)
+			if !judged {
+				// the secret spans lines (a key with a newline): the file as a whole
+				form, _ := findSecret(hay[rel], secret, c.user())
+				verdicts = append(verdicts, verdict{pred: "secret_in_sink", phase: "n/a", line: "n/a", form: form})
+			}
+			for _, v := range verdicts {
+				match := "whole"
+				if strings.HasSuffix(v.form, ":part") {
+					match = "part"
+				}
+				e.res.Fail(map[string]any{"pred": v.pred, "sink": sink, "dev": c.Dev, "secret": kind, "form": strings.TrimSuffix(v.form, ":part"),
+					"match": match, "phase": v.phase, "line": v.line},
+					fmt.Sprintf("%s %s: %s found (%s, %s) in %s [fault %s at %d]", c.Dev, c.Cmd, kind, v.form, match, rel, c.Fault, c.FaultAt),
+					map[string]any{"run": c})
+				e.res.Count("leak:" + v.pred + ":" + v.phase + ":" + sink)
+			}
 		}
 	}
 }
@@ -1269,7 +1303,11 @@ type runReq struct {
 	Case  *runCase `json:"case"`
 	No    int      `json:"no"`
 	Scale int      `json:"scale"`
+	Tmp   string   `json:"tmp"` // private directory of the run, made and removed by the parent
 }
+
+// runTmpBase: where the parent keeps the private directories of the runs
+var runTmpBase = os.TempDir()
 
 // runCaseMain: `vh-c17 -runcase` — one run in a process of its own (a run that hangs can be killed,
 // process globals and ptys are released with the process).
@@ -1286,12 +1324,10 @@ func runCaseMain() int {
 		json.NewEncoder(os.Stdout).Encode(&runOutcome{Status: 1, Stderr: "ERROR>>> open /dev/ptmx: no space left on device\n"})
 		return 0
 	}
-	tmp, err := os.MkdirTemp("", "vh-c17-run-")
-	if err != nil {
+	if err := os.MkdirAll(rq.Tmp, 0755); err != nil {
 		return 2
 	}
-	defer os.RemoveAll(tmp)
-	o := execRun(tmp, rq.Case, rq.No, rq.Scale)
+	o := execRun(rq.Tmp, rq.Case, rq.No, rq.Scale)
 	saved := os.Stdout
 	json.NewEncoder(saved).Encode(o)
 	return 0
@@ -1306,23 +1342,29 @@ func spawnRun(c *runCase, no, scale int) *runOutcome {
 	ctx, cancel := context.WithTimeout(context.Background(), time.Duration(12+8*scale)*time.Second)
 	defer cancel()
 	cmd := exec.CommandContext(ctx, exe, "-runcase")
-	in, _ := json.Marshal(runReq{Case: c, No: no, Scale: scale})
+	tmp := filepath.Join(runTmpBase, fmt.Sprintf("rc%d-%d", no, scale))
+	defer os.RemoveAll(tmp)
+	in, _ := json.Marshal(runReq{Case: c, No: no, Scale: scale, Tmp: tmp})
 	cmd.Stdin = bytes.NewReader(in)
 	var outB, errB bytes.Buffer
 	cmd.Stdout, cmd.Stderr = &outB, &errB
 	cmd.WaitDelay = 2 * time.Second
 	err := cmd.Run()
 	o := &runOutcome{Files: map[string]string{}, noEcho: true}
+	// whatever went wrong with the child: the files it left are still scanned for secrets
 	switch {
 	case ctx.Err() != nil:
 		o.Env = "child killed after time-out"
+		o.Files = collectFiles(tmp, no)
 		return o
 	case err != nil:
 		o.Env = "child failed: " + err.Error() + " " + lastLine(errB.String())
+		o.Files = collectFiles(tmp, no)
 		return o
 	}
 	if err := json.Unmarshal(outB.Bytes(), o); err != nil {
 		o.Env = "outcome unreadable: " + err.Error()
+		o.Files = collectFiles(tmp, no)
 		return o
 	}
 	o.noEcho = true
@@ -1345,13 +1387,12 @@ func lastLine(s string) string {
 	return l[len(l)-1]
 }
 
-// evaluate judges one outcome into a scratch result; nothing is reported yet.
-func (e *c17Env) evaluate(c *runCase, o *runOutcome) (scratch *Result, reached bool) {
+// judge: the oracle (byte scan; `leaks`) and the ties with the models (`tie`) of one outcome, each
+// into a scratch result.  The scan is done for EVERY run, also one the environment spoilt.
+func (e *c17Env) judge(c *runCase, o *runOutcome) (leaks, tie *Result, reached bool) {
 	real := e.res
-	scratch = NewResult()
-	e.res = scratch
 	defer func() { e.res = real }()
-	res := scratch
+	leaks, tie = NewResult(), NewResult()
 	if os.Getenv("C17_DEBUG") != "" {
 		fmt.Fprintf(os.Stderr, "---- run %s\nstatus %d panic %q env %q\nstdout: %q\nstderr: %q\nsimEv: %q\n", JSONStr(c), o.Status, o.PanicMsg, o.Env, o.Stdout, o.Stderr, o.SimEv)
 		for _, q := range o.Reqs {
@@ -1366,57 +1407,54 @@ func (e *c17Env) evaluate(c *runCase, o *runOutcome) (scratch *Result, reached b
 			fmt.Fprintf(os.Stderr, "file %s: %q\n", n, o.Files[n])
 		}
 	}
-	if o.PanicMsg != "" {
-		res.Fail(map[string]any{"pred": "run_panic", "dev": c.Dev}, o.PanicMsg, map[string]any{"run": c})
-		return scratch, false
-	}
 	reached = len(o.Reqs) > 0 || strings.Contains(o.SimEv, "<PASSWORD-OK>") || strings.Contains(o.SimEv, "<PASSWORD-WRONG>")
-	if c.Dev == "NSX" && len(o.Reqs) > 1 {
-		// the run is meaningful only if the session secrets were really in use
-		if o.Reqs[1].Token != c.Key || o.Reqs[1].Cookie != c.Cookie {
-			res.Disagree("c17 run NSX: token/cookie not presented by the client", c, fmt.Sprint(o.Reqs[1]), "token and cookie of the login response")
+	e.res = tie
+	if o.Env == "" {
+		if o.PanicMsg != "" {
+			tie.Fail(map[string]any{"pred": "run_panic", "dev": c.Dev}, o.PanicMsg, map[string]any{"run": c})
+		}
+		if c.Dev == "NSX" && len(o.Reqs) > 1 {
+			// the run is meaningful only if the session secrets were really in use
+			if o.Reqs[1].Token != c.Key || o.Reqs[1].Cookie != c.Cookie {
+				tie.Disagree("c17 run NSX: token/cookie not presented by the client", c, fmt.Sprint(o.Reqs[1]), "token and cookie of the login response")
+			}
+		}
+		if strings.Contains(o.SimEv, "<PASSWORD-AS-COMMAND>") {
+			tie.Count("ssh:password-sent-as-enable-password")
+		}
+		if o.Retries > 0 {
+			tie.CountN("http:transparent-retries-of-dropped-requests", o.Retries)
+		}
+		tie.Count("run:" + c.Dev + ":" + c.Cmd)
+		tie.Count(fmt.Sprintf("run-status:%s:%d", c.Dev, o.Status))
+		if c.FaultAt >= 0 || c.Fault != "" {
+			tie.Count("run-fault:" + c.Dev + ":" + c.Fault)
+		}
+		if o.PanicMsg == "" {
+			if devSSH[c.Dev] && c.Cred == "" {
+				e.compareSSH(c, o) // also tells whether the device kept to `noEchoAtPasswordPrompt`
+			}
+			switch {
+			case c.Dev == "PAN-OS" && c.Cred == "" && c.User == "" && c.KeyKind == "":
+				e.comparePanos(c, o)
+			case c.Dev == "NSX" && c.Cred == "":
+				e.compareNSX(c, o)
+			}
+		}
+		if reached && c.FaultAt >= 0 {
+			tie.Sample(map[string]any{"run": c, "status": o.Status, "markers": markerLines(o.runlog(c))})
 		}
 	}
-	if strings.Contains(o.SimEv, "<PASSWORD-AS-COMMAND>") {
-		res.Count("ssh:password-sent-as-enable-password")
-	}
-	if o.Retries > 0 {
-		res.CountN("http:transparent-retries-of-dropped-requests", o.Retries)
-	}
-	res.Count("run:" + c.Dev + ":" + c.Cmd)
-	res.Count(fmt.Sprintf("run-status:%s:%d", c.Dev, o.Status))
-	if c.FaultAt >= 0 || c.Fault != "" {
-		res.Count("run-fault:" + c.Dev + ":" + c.Fault)
-	}
-	if devSSH[c.Dev] && c.Cred == "" {
-		e.compareSSH(c, o) // also tells whether the device kept to `noEchoAtPasswordPrompt`
-	}
+	e.res = leaks
 	e.scanRun(c, o)
-	switch {
-	case c.Dev == "PAN-OS" && c.Cred == "" && c.User == "":
-		e.comparePanos(c, o)
-	case c.Dev == "NSX" && c.Cred == "":
-		e.compareNSX(c, o)
+	leaks.Count("scanned-runs")
+	if o.Env != "" {
+		leaks.Count("scanned-runs-spoilt-by-environment")
 	}
-	if reached && c.FaultAt >= 0 {
-		res.Sample(map[string]any{"run": c, "status": o.Status, "markers": markerLines(o.runlog(c))})
-	}
-	return scratch, reached
+	return leaks, tie, reached
 }
 
-// suspicious: something that would be reported (a disagreement, or an oracle failure outside the known
-// class F-C17 whose lines are pinned by the suite).
-func suspicious(r *Result) bool {
-	if len(r.Disagreements) > 0 {
-		return true
-	}
-	for _, f := range r.Failures {
-		if fmt.Sprint(f.Sig["pred"]) != "panos_transport_error_url" {
-			return true
-		}
-	}
-	return false
-}
+func tieTrouble(r *Result) bool { return len(r.Disagreements) > 0 || len(r.Failures) > 0 }
 
 func (e *c17Env) merge(r *Result) {
 	for k, v := range r.Distribution {
@@ -1438,36 +1476,41 @@ func (e *c17Env) merge(r *Result) {
 	}
 }
 
-// finishRun: judge the outcome of the first attempt; whatever would be reported, and every run the
-// environment spoilt, is repeated — serially, with all time-outs five times as long — and only what
-// shows again is reported.  A run the environment spoils twice is inconclusive, not a disagreement.
+// finishRun.  A secret found in what a run left behind is a hard finding: it is reported from EVERY
+// run (first attempt, repetition, runs the environment spoilt), never replaced by a re-run.
+// A disagreement with a model, and a run the environment spoilt (child killed, no pty …), is repeated —
+// serially, with all time-outs five times as long; the repetition can only CONFIRM the first verdict:
+// the first run's disagreement is reported if the repetition disagrees as well, otherwise it is counted
+// as not reproduced.  A run spoilt twice is inconclusive (counted, with a note), not a disagreement.
 func (e *c17Env) finishRun(c *runCase, o *runOutcome) {
 	e.runNo++
-	var v *Result
-	reached := false
-	if o.Env == "" {
-		v, reached = e.evaluate(c, o)
-	}
-	if o.Env != "" || suspicious(v) {
+	leaks, tie, reached := e.judge(c, o)
+	e.merge(leaks)
+	if o.Env != "" || tieTrouble(tie) {
 		why := o.Env
 		if why == "" {
 			why = "would be reported"
 		}
 		e.res.Count("retry(serial, time-outs x5): " + strings.SplitN(why, ":", 2)[0])
 		o2 := spawnRun(c, 100000+e.runNo, 5)
-		if o2.Env != "" {
+		leaks2, tie2, reached2 := e.judge(c, o2)
+		e.merge(leaks2)
+		switch {
+		case o2.Env != "":
 			e.res.Count("inconclusive: " + strings.SplitN(o2.Env, ":", 2)[0])
 			e.res.Notes = append(e.res.Notes, fmt.Sprintf("inconclusive run (%s; first attempt: %s): %s", o2.Env, why, JSONStr(c)))
 			return
-		}
-		v2, reached2 := e.evaluate(c, o2)
-		if o.Env == "" && !suspicious(v2) {
+		case o.Env != "":
+			tie, reached = tie2, reached2 // the repetition is the first real verdict
+		case tieTrouble(tie2):
+			// confirmed: the FIRST verdict is reported
+		default:
 			e.res.Count("not reproduced with longer time-outs")
+			tie, reached = tie2, reached2
 		}
-		v, reached = v2, reached2
 	}
 	e.res.Eval(c.canon(), reached)
-	e.merge(v)
+	e.merge(tie)
 }
 
 func (e *c17Env) oneRun(c *runCase) {
@@ -1477,6 +1520,10 @@ func (e *c17Env) oneRun(c *runCase) {
 func (e *c17Env) replayRun(c *runCase) { e.oneRun(c) }
 
 var runCmds = []string{"do-approve approve", "do-approve compare", "drc", "drc -C"}
+
+var oddKeyKinds = []string{"amp", "newline", "quote", "percent", "lt", "space", "backslash", "apos-gt", "hash"}
+var oddKeyChars = map[string]string{"amp": "&", "newline": "\n", "quote": "\"", "percent": "%zz", "lt": "<", "space": " ",
+	"backslash": "\\", "apos-gt": "'>", "hash": "#"}
 
 func (e *c17Env) genRunSecrets(rng *RNG, c *runCase) {
 	if c.Pass != "" {
@@ -1492,6 +1539,9 @@ func (e *c17Env) genRunSecrets(rng *RNG, c *runCase) {
 	switch c.Dev {
 	case "PAN-OS":
 		c.Key = genCore(rng, 24) + Pick(rng, []string{"", "=", "==", "+/x=", "/+9", "%2B", "~."})
+		if odd, ok := oddKeyChars[c.KeyKind]; ok {
+			c.Key = genCore(rng, 11) + odd + genCore(rng, 12) + Pick(rng, []string{"", odd, "="})
+		}
 	case "NSX":
 		c.Key = genCore(rng, 16) + Pick(rng, []string{"", "-", "=", "+/", "%26"})
 		c.Cookie = genCore(rng, 20)
@@ -1560,6 +1610,16 @@ func (e *c17Env) wholeRuns() {
 		}
 	}
 	run(&runCase{Dev: "PAN-OS", Cmd: "drc", FaultAt: 3, Fault: "timeout"})
+	// keys with characters a base64 key never has (item 30 of the oracle audit): scan only
+	for i, kk := range oddKeyKinds {
+		for ci, cmd := range []string{"do-approve approve", "drc"} {
+			if !thorough && (i+ci)%2 == 1 {
+				continue
+			}
+			run(&runCase{Dev: "PAN-OS", Cmd: cmd, FaultAt: -1, Variant: i, KeyKind: kk})
+			run(&runCase{Dev: "PAN-OS", Cmd: cmd, FaultAt: 1 + (i+ci)%4, Fault: Pick(rng, []string{"eof", "status", "trunc"}), Variant: i, KeyKind: kk})
+		}
+	}
 	// a user name with a control character: the commit URL is rejected by net/url ("parse" error)
 	run(&runCase{Dev: "PAN-OS", Cmd: "do-approve approve", FaultAt: -1, User: "ad\x01min"})
 	// password typed at a terminal (may contain blanks)
